@@ -69,6 +69,68 @@ class Part:
         self.note = note
 
 
+def all_parts(mod, tier):
+    """The parts of a check; in the thorough tier every part named in the module's ATHERIS list gets a
+    companion part 'atheris-<name>': 16 libFuzzer campaigns (Atheris, gfapy instrumented) that drive the
+    same case generator from the fuzzer's bytes and run the same oracle (vf/fuzz/generic.py)."""
+    parts = list(mod.parts(tier))
+    if tier == "thorough":
+        for name in getattr(mod, "ATHERIS", []):
+            base = [p for p in parts if p.name == name]
+            if base:
+                parts.append(_atheris_part(mod, base[0]))
+    return parts
+
+
+def _atheris_part(mod, base):
+    import re
+    import shutil
+    import subprocess
+    import tempfile
+
+    def prop(case):
+        if "atheris_stats" in case:
+            st_ = case["atheris_stats"]
+            return {"nt": False, "atheris_campaign": True, "atheris_harness_errors": st_.get("harness") or None,
+                    "_sum": {"atheris_executions": st_.get("runs", 0), "atheris_nontrivial_executions": st_.get("nontrivial", 0),
+                             "atheris_campaign_seconds": st_.get("seconds", 0)}}
+        return base.prop(case)
+
+    def enum(shard, nshards):
+        secs = int(os.environ.get("VERIF_FUZZ_SECONDS", "45"))
+        seed = int(os.environ.get("VERIF_SEED", "1")) * 1000 + shard + 1
+        d = tempfile.mkdtemp(prefix="vffz")
+        try:
+            os.makedirs(os.path.join(d, "corpus"))
+            out = os.path.join(d, "out.json")
+            env_ = dict(os.environ, PYTHONPATH=HERE + os.pathsep + os.path.join(HERE, ".deps"))
+            r = subprocess.run([sys.executable, "-m", "vf.fuzz.generic", mod.ID, base.name, out, "-max_total_time=%d" % secs,
+                                "-seed=%d" % seed, "-max_len=4096", "-len_control=0", "-timeout=120", os.path.join(d, "corpus")],
+                               cwd=HERE, env=env_, capture_output=True, text=True)
+            if not os.path.exists(out):
+                return  # atheris not available: the part contributes nothing (the Hypothesis parts decide)
+            try:
+                with open(out) as f:
+                    res = json.load(f)
+            except Exception:
+                return
+            m = re.search(r"Done (\d+) runs", r.stderr + r.stdout)
+            found = res.get("found", [])
+            harness = [x for x in found if x["sub"] == "harness"]
+            yield {"atheris_stats": {"runs": int(m.group(1)) if m else res["stats"].get("cases", 0), "seconds": secs, "seed": seed,
+                                     "nontrivial": res["stats"].get("nontrivial", 0),
+                                     "harness": ("%d: %s" % (len(harness), harness[0]["message"][:80])) if harness else None}}
+            for x in found:
+                if x["sub"] != "harness":
+                    yield x["case"]
+        finally:
+            shutil.rmtree(d, ignore_errors=True)
+
+    return Part("atheris-" + base.name, prop, enum=enum,
+                note="libFuzzer campaigns (Atheris, gfapy instrumented) of VERIF_FUZZ_SECONDS (45) s per shard driving the case generator of part '%s' "
+                     "from the fuzzer's bytes, same oracle; evaluations counts the campaigns and the re-checked findings, the executions are in the labels" % base.name)
+
+
 def case_hash(case):
     return hashlib.sha1(json.dumps(case, sort_keys=True, default=str).encode()).hexdigest()[:16]
 
@@ -87,6 +149,7 @@ class Stats:
         self.labels = Counter()
         self.samples = []
         self.excluded = Counter()
+        self.sums = Counter()  # numeric totals reported by oracles (e.g. executions of fuzzing campaigns)
         self.inconclusive = 0
         self.violation = None  # dict
 
@@ -98,6 +161,7 @@ class Stats:
             if len(self.samples) < 6:
                 self.samples.append(s)
         self.excluded.update(o.excluded)
+        self.sums.update(o.sums)
         self.inconclusive += o.inconclusive
         if self.violation is None:
             self.violation = o.violation
@@ -169,6 +233,9 @@ def _run_case(part, case, stats, open_sigs, pid, keep_sample=True):
         for k, val in labels.items():
             if k == "nt":
                 continue
+            if k == "_sum":
+                stats.sums.update(val)
+                continue
             if val is True:
                 stats.labels[k] += 1
             elif val is not False and val is not None:
@@ -186,7 +253,7 @@ def run_part_shard(modname, part_index, tier, seed, shard, nshards, scale):
     """Executed in a worker (or inline). Returns a Stats."""
     signal.signal(signal.SIGALRM, _alarm)
     mod = importlib.import_module(modname)
-    part = mod.parts(tier)[part_index]
+    part = all_parts(mod, tier)[part_index]
     pid = mod.ID
     stats = Stats()
     open_sigs = set(e["signature"] for e in load_findings(pid) if e.get("status") == "open")
@@ -285,6 +352,7 @@ def write_evidence(mod, tier, seed, total, per_part, wall, violations, exhaustiv
         "excluded_by_finding": dict(total.excluded),
         "inconclusive_cases": total.inconclusive,
         "regression_replays": n_regress,
+        "totals": dict(total.sums),
     }
     if exhaustive_parts:
         cov["exhaustive_parts"] = exhaustive_parts
@@ -314,9 +382,9 @@ def replay(mod, path):
     with open(path) as f:
         body = json.load(f)
     tier = body.get("tier", "quick")
-    parts = {p.name: p for p in mod.parts(tier)}
+    parts = {p.name: p for p in all_parts(mod, tier)}
     if body["part"] not in parts:
-        parts.update({p.name: p for p in mod.parts("thorough")})
+        parts.update({p.name: p for p in all_parts(mod, "thorough")})
     part = parts[body["part"]]
     try:
         part.prop(body["case"])
@@ -421,7 +489,7 @@ def main(argv=None):
         mod = importlib.import_module(modname)
         if args.replay:
             return replay(mod, args.replay)
-        parts = mod.parts(args.tier)
+        parts = all_parts(mod, args.tier)
         jobs = []
         for i, p in enumerate(parts):
             if args.part and p.name != args.part:
